@@ -1295,7 +1295,8 @@ struct TemplateCore {
             const SizeT   loop_size      = loop_set->Size();
             SizeT         loop_index     = 0;
 
-            if (loops_items_->Size() <= tag.Level) {
+            // Level also counts the enclosing <if> tags: make sure the slot exists.
+            while (loops_items_->Size() <= tag.Level) {
                 *loops_items_ += LoopItem{};
             }
 
